@@ -65,7 +65,8 @@ const (
 	c15Tail = "\n\n\nvar   c15Tail   =   [ ]int{ 1,2 }\n"
 )
 
-var c15States = []string{"absent", "present", "immutable", "dir", "noparent", "unwritable"}
+// "alias": the -out value designates the INPUT file itself (same path, a symbolic link to it, or a hard link to it)
+var c15States = []string{"absent", "present", "immutable", "dir", "noparent", "unwritable", "alias"}
 
 // c15Input is one input (a module tree and the name of the input file).
 type c15Input struct {
@@ -325,6 +326,9 @@ func (x *c15ctx) runCase(c *c15Case) *c15Obs {
 	if c.State == "noparent" {
 		outName = c15MissOut
 	}
+	if c.State == "alias" && c.Mech == "same" {
+		outName = c.In.Input
+	}
 	var inArg, outArg string
 	switch c.Spelling {
 	case "abs":
@@ -375,6 +379,16 @@ func (x *c15ctx) runCase(c *c15Case) *c15Obs {
 	case "unwritable":
 		if c.Mech == "uid+present" {
 			err = write(o.OutAbs, c15Sentinel(c, "out"))
+		}
+	case "alias":
+		if _, serr := os.Lstat(inputAbs); serr != nil {
+			break // the input does not exist: nothing to alias, the case degenerates to "absent"
+		}
+		switch c.Mech {
+		case "symlink":
+			err = os.Symlink(c.In.Input, o.OutAbs)
+		case "hardlink":
+			err = os.Link(inputAbs, o.OutAbs)
 		}
 	}
 	if err != nil {
@@ -570,8 +584,13 @@ func (x *c15ctx) judge(c *c15Case, o *c15Obs) {
 	if _, ok := o.Pre.Entries[logKey]; !ok {
 		logEffect = "absent"
 	}
+	inputKey := o.Pre.Key(filepath.Join(filepath.Dir(o.SetupAbs), c.In.Input))
 	for _, ch := range o.Changes {
 		switch {
+		case c.State == "alias" && (ch.Path == inputKey || ch.Path == setupKey):
+			// the output path designates the input itself: "the setup file is never modified" decides
+			violate("snapshot", "setup-file-modified", map[string]string{"change": ch.Kind, "alias": c.Mech},
+				fmt.Sprintf("flags=%s exit=%d: %s", c.flagString(), o.Res.Exit, ch.String()))
 		case c15Under(ch.Path, outKey):
 			if ch.Path == outKey {
 				outEffect = ch.Kind
@@ -837,7 +856,7 @@ func RunC15(e *core.Env) int {
 	rep := core.NewReport(e, "fault_enumeration",
 		"input kinds (accepted / rejected early / rejected late / crashing, from the broad generator by observed outcome, + 13 hand-made inputs) "+
 			"x all 16 combinations of -dry,-print,-log,-out x output-path pre-states {absent, present, immutable, directory in the way, missing parent (only with -out), "+
-			"unwritable directory: uid 65534 / uid 65534 with existing file / chattr +i directory}; every cell is run at least once; "+
+			"unwritable directory: uid 65534 / uid 65534 with existing file / chattr +i directory, -out designating the input file itself: same path / symbolic link / hard link}; every cell is run at least once; "+
 			"a case is distinct by (input kind, observed exit class, flag combination, pre-state, mechanism, observed effect on the output path, observed effect on the log path, snapshot vs snapshot+strace)")
 	rep.Assume("the designated output path is the -out value, else the input path with .gen inserted before the extension; the log path is the output path with its extension replaced by .log (C18's contract)",
 		"processes the tool spawns (go list and descendants) are not 'the run' for the syscall oracle; whatever they change below the module root is still caught by the snapshot oracle",
@@ -906,8 +925,8 @@ func RunC15(e *core.Env) int {
 		for si, st := range c15States {
 			var applicable []int
 			for bits := 0; bits < 16; bits++ {
-				if st == "noparent" && bits&8 == 0 {
-					continue // a missing parent directory can only be named with -out
+				if (st == "noparent" || st == "alias") && bits&8 == 0 {
+					continue // a missing parent directory / the input itself can only be named with -out
 				}
 				applicable = append(applicable, bits)
 			}
@@ -930,6 +949,9 @@ func RunC15(e *core.Env) int {
 					if st == "unwritable" {
 						c.Mech = []string{"uid", "uid+present", "chattr-dir"}[(bits+r+rnd.Intn(3))%3]
 					}
+					if st == "alias" {
+						c.Mech = []string{"same", "symlink", "hardlink"}[(bits/2+r+ki)%3]
+					}
 					c.Strace = r == 0 && straceBits[bits] || straceEvery > 0 && c.Idx%straceEvery == 0
 					c.ID = fmt.Sprintf("%s/%s/%s/%s%s/%s/r%d", k.name, c.In.Name, c.flagString(), st,
 						map[bool]string{true: "-" + c.Mech, false: ""}[c.Mech != ""], c.Spelling, r)
@@ -939,7 +961,7 @@ func RunC15(e *core.Env) int {
 		}
 	}
 	rep.Count("cases", len(cases))
-	rep.Count("cells_not_applicable_noparent_without_out", 8*len(kinds))
+	rep.Count("cells_not_applicable_noparent_or_alias_without_out", 16*len(kinds))
 	rep.Exhaustive(true)
 
 	e.Parallel(len(cases), func(i int) {
